@@ -20,7 +20,7 @@ NA = {
 }
 
 PENDING = {k: 'applicable to this technique (see DESIGN.md section 3) but its check is not built yet in this revision; not claimed until it is quiet and sensitive'
-           for k in ('C04', 'C10')}
+           for k in ('C10',)}
 
 CHECKS = {
  'C05': dict(
@@ -93,6 +93,17 @@ CHECKS = {
          'schedule is the operation history and the faults are ill-formed operations. Open findings F9a (far index accepted, test-pinned), '
          'F9g (slice assignment is not list-style), F9f (== on constructed values) are classified by (invariant, operation kind).',
     technique='deterministic simulation, sequential end of the family: seeded operation/fault histories checked step by step against an executable reference model, delta-debugged replay'),
+ 'C04': dict(
+    engine='replica-world', category='exploration', design_ref='DESIGN.md section 3 (C04)',
+    text='2-5 replicas are driven to the same abstract value by different seeded construction histories (permuted assignment/insertion order and '
+         'addressing mode, DEFAULT components explicit or left out, native Python arguments, decoding of each BER form the library can produce, '
+         'CER/DER decode, clone of another route) with read-only uses (DER/CER/BER encode, print, iterate, compare, len, in) interleaved; the DER '
+         'and the CER bytes of all replicas must be identical, a read-only use must leave bytes and abstract value unchanged, and '
+         'der(decode(der(v))) == der(v) (same for CER). Convergence check of replicated state with the encodings as the compared state.',
+    note='Trusts: the plan\'s plain-data value as the abstract value (SET OF = multiset, absent DEFAULT = default). A decoded route that does not '
+         'reach the target value (a round-trip defect, C01/C02/C09 territory) is counted as a probe and left out, so decoder defects are not '
+         'misattributed. No reference encoder: only history-independence is decided, not X.690 conformance.',
+    technique='deterministic simulation, replica convergence: seeded construction histories per replica, invariant = identical canonical bytes, delta-debugged replay'),
 }
 
 
